@@ -88,7 +88,10 @@ def free_case(draw):
 def _clip(spec):
     from soundevent import data
 
-    rec = data.Recording(uuid=str(uuidlib.UUID(int=7)), path="r.wav", duration=1e6, channels=1, samplerate=8000)
+    # clip times are recording times: whether the recording is time-expanded (bat detectors: x10; slowed-down playback: x0.5) is none
+    # of the segmentation's business.  The factor follows the spec's salt.
+    te = [1.0, 1.0, 10.0, 0.5, 8.0][spec["salt"] % 5]
+    rec = data.Recording(uuid=str(uuidlib.UUID(int=7)), path="r.wav", duration=1e6, channels=1, samplerate=8000, time_expansion=te)
     end = spec["start"] + spec["length"]
     return data.Clip(uuid=str(uuidlib.UUID(int=spec["salt"])), recording=rec, start_time=spec["start"], end_time=end), rec, end
 
@@ -198,6 +201,16 @@ def check(spec, ctx):
         if key(a for a, _ in pairs_) != seq_a or key(b for _, b in pairs_) != seq_b:
             ctx.fail("two segment_clip results consumed in lock step differ from the same calls made one after the other", spec, [key(a for a, _ in pairs_)[:3], key(b for _, b in pairs_)[:3]], [seq_a[:3], seq_b[:3]], kind="interleaved")
         ctx.interleave(spec, "segment_clip", lambda: key(segment_clip(clip, **kw)), lambda: key(segment_clip(clip_b, **kw_b)), every=4, max_pauses=24)
+    # the caller's ambient decimal context (an application that formats money with three significant digits, or rounds down) is not an
+    # input of the segmentation
+    import decimal as _decimal
+
+    with _decimal.localcontext() as _dc:
+        _dc.prec = 3
+        _dc.rounding = _decimal.ROUND_DOWN
+        low = [(x.start_time, x.end_time, x.uuid) for x in segment_clip(clip, **kw)]
+    if low != [(x.start_time, x.end_time, x.uuid) for x in segs]:
+        ctx.fail(f"segment_clip under a decimal context of precision 3 yields {len(low)} segments, under the default context {len(segs)}", spec, low[-2:], got[-2:], kind="ambient_decimal_context")
     # include_incomplete defaults to False
     if not inc:
         kw_d = {k: v for k, v in kw.items() if k != "include_incomplete"}
@@ -260,6 +273,13 @@ def check_many(spec, ctx):
                 ctx.fail(f"segment {i} is [{segs[i].start_time}, {segs[i].end_time}], the lattice window is [{es}, {ee}]", spec, [segs[i].start_time, segs[i].end_time], [es, ee], kind="bounds")
     if len({x.uuid for x in segs}) != len(segs):
         ctx.fail("segment identifiers are not distinct within one call", spec, None, None, kind="uuid")
+    import decimal as _decimal
+
+    with _decimal.localcontext() as _dc:
+        _dc.prec = 3
+        n_low = sum(1 for _ in segment_clip(clip, duration=d, hop=h, include_incomplete=spec["incomplete"]))
+    if n_low != len(segs):
+        ctx.fail(f"segment_clip under a decimal context of precision 3 yields {n_low} segments, under the default context {len(segs)}", spec, n_low, len(segs), kind="ambient_decimal_context")
 
 
 @st.composite
